@@ -30,6 +30,7 @@ type WorkerIn struct {
 	Out       string `json:"out"`
 	MaxSteps  int    `json:"max_steps"`
 	RawLib    bool   `json:"raw_lib,omitempty"` // uninstrumented cross-check
+	Known     []string `json:"known,omitempty"`  // signatures listed in known_findings.json
 }
 
 // Sample is a written-out case for the evidence file.
@@ -82,6 +83,7 @@ type WorkerOut struct {
 	Reproduced  bool           `json:"reproduced,omitempty"`
 	ReplayTrace []string       `json:"replay_trace,omitempty"`
 	Policies    map[string]int `json:"policies"`
+	StoppedEarly bool          `json:"stopped_early,omitempty"` // enough unlisted violations found: remaining runs skipped
 	RunHashes   []uint64       `json:"run_hashes,omitempty"` // mode hashes: one per run index
 }
 
@@ -285,6 +287,15 @@ func RunWorker(t *testing.T, scenarios map[string]*Scenario) {
 		return
 	}
 
+	known := map[string]bool{}
+	for _, k := range in.Known {
+		known[k] = true
+	}
+	unlisted := 0
+	// once a worker has seen this many runs violate the property (violations
+	// not listed as known findings) the verdict is settled: the remaining
+	// runs are skipped, which keeps a badly broken tree from costing hours
+	const enough = 40
 	handle := func(p *Plan, runID string, seed uint64, enum bool) *RunResult {
 		if p.Policy == "" {
 			p.Policy = PolUniform
@@ -302,6 +313,9 @@ func RunWorker(t *testing.T, scenarios map[string]*Scenario) {
 			os.Exit(2)
 		}
 		a.add(p, r)
+		if r.Leaked && os.Getenv("VERIF_DEBUG") != "" {
+			fmt.Fprintf(os.Stderr, "DEBUG leaked: run %s viol=%v plan=%s\n", runID, r.Viol, p)
+		}
 		if enum {
 			out.EnumRuns++
 		} else {
@@ -312,6 +326,9 @@ func RunWorker(t *testing.T, scenarios map[string]*Scenario) {
 		}
 		if r.Viol != nil {
 			sig := r.Viol.Signature()
+			if !known[sig] {
+				unlisted++
+			}
 			if f := a.found[sig]; f != nil {
 				f.Count++
 			} else if len(a.found) < 6 {
@@ -337,15 +354,24 @@ func RunWorker(t *testing.T, scenarios map[string]*Scenario) {
 			if i%in.Workers != in.Worker {
 				continue
 			}
+			if unlisted >= enough {
+				out.StoppedEarly = true
+				break
+			}
 			out.EnumBases++
 			seed := Mix(in.Seed, StrSeed(in.Prop), uint64(i), 0xE)
 			sweepC := p.X("sweep_cancel") == 1
 			sweepA := p.X("sweep_abandon") == 1
 			base := p.Clone()
 			r := handle(p, "enum-"+strconv.Itoa(i), seed, true)
+			if r.Viol != nil || !r.Quiescent {
+				// the fault-free base run already failed (or never settled):
+				// sweeping faults over it would only repeat that
+				continue
+			}
 			if sweepC {
-				L := r.Steps
-				for k := 0; k <= L; k++ {
+				L := min(r.Steps, 2000)
+				for k := 0; k <= L && unlisted < enough; k++ {
 					q := base.Clone()
 					q.CancelStep = k
 					handle(q, fmt.Sprintf("enum-%d-cancel@%d", i, k), seed, true)
@@ -354,7 +380,7 @@ func RunWorker(t *testing.T, scenarios map[string]*Scenario) {
 			if sweepA {
 				for ci := range base.Consumers {
 					maxK := p.X("sweep_abandon_max")
-					for k := 0; k <= maxK; k++ {
+					for k := 0; k <= maxK && unlisted < enough; k++ {
 						q := base.Clone()
 						q.Consumers[ci].Abandon = k
 						q.CancelAtEnd = true
@@ -367,6 +393,10 @@ func RunWorker(t *testing.T, scenarios map[string]*Scenario) {
 	// random part
 	for i := in.Worker; i < in.Random; i += in.Workers {
 		if in.WallLimit > 0 && time.Since(start) > time.Duration(in.WallLimit)*time.Second {
+			break
+		}
+		if unlisted >= enough {
+			out.StoppedEarly = true
 			break
 		}
 		seed := Mix(in.Seed, StrSeed(in.Prop), uint64(i), 0xA)
